@@ -3,7 +3,12 @@ Random terminals / PDO maps / Struct channels and generated Device subclasses ar
 same frame contents go through (i) the real Python path (`PacketVar.get/set` on a SyncGroup's `current_data`),
 (ii) the real generated program of a FastSyncGroup (re-assembled from /repo, executed by the independent
 interpreter) and (iii) the Lean model `Ebv.ProcVar`.  The oracle is a reference written from the property text
-(big integers, `int.from_bytes`) over a layout recomputed independently of `allocate()`."""
+(big integers, `int.from_bytes`) over a layout recomputed independently of `allocate()`.
+
+History of the PacketVar objects is part of the input: devices may have run before in another sync group
+(`prior`), and one PacketVar object may be linked to two devices (`alias`).  On the unchanged tree the Python
+path's cached accessors then violate the property (known-finding classes `stale-start`, `shared-packetvar`,
+decided by `stale(case)` / `shared(case)`); the model reproduces that behaviour exactly."""
 import struct
 
 from .. import interp, progs
@@ -19,6 +24,8 @@ THEOREMS = [
     "Ebv.C19.paths_agree_get_bit", "Ebv.C19.paths_agree_test", "Ebv.C19.paths_agree_set_bit",
     "Ebv.C19.py_roundtrip", "Ebv.C19.prog_roundtrip", "Ebv.C19.bit_roundtrip",
     "Ebv.C19.step_agree", "Ebv.C19.run_agree", "Ebv.C19.rel_init",
+    "Ebv.C19.run_agree_partial", "Ebv.C19.run_agree_full_refuted", "Ebv.C19.run_agree_full_refuted_shared",
+    "Ebv.C19.stale_start_writes_foreign_byte", "Ebv.C19.consistent_fresh",
     "Ebv.C19.prog_addr_in_payload", "Ebv.C19.resolve_packet", "Ebv.C19.resolve_process", "Ebv.C19.width_table",
 ]
 TRUSTED = ["hand-written model Ebv.ProcVar of PacketVar.get/set (Python path) and of the code Memory.calculate/_set emit for "
@@ -29,9 +36,12 @@ ASSUMPTIONS = ["values written are representable in the destination format (othe
                "truncates: outside the property); bit numbers 0..7; formats B H I Q b h i q",
                "output enabled (wkc_errors != 0, working counters as expected) and frame long enough, else the program leaves the frame alone (C21)",
                "pdo_assign is what allocate() computes (C18); the harness re-derives the layout independently and requires equality",
+               "known findings (findings/C19.json): accessors cached on the PacketVar object keep the start of the first sync group "
+               "(stale-start) and are bound to the first device (shared-packetvar); theorems exclude them by Consistent / NoSharing",
                "DeviceVars hold values of their own format; a Struct linked directly to a TerminalVar cannot be put into a sync group "
                "(Device.get_terminals needs .sm) and assigning to a Struct member only shadows the descriptor: not exercised"]
-RULE = ("case = 1-3 terminals (FMMU or not, random position/sizes, pdos table with byte formats and bit numbers, several variables "
+RULE = ("history: fresh objects (~80%), devices that ran before in a sync group of their own (~15%), a PacketVar object linked to two "
+        "devices (~5%); case = 1-3 terminals (FMMU or not, random position/sizes, pdos table with byte formats and bit numbers, several variables "
         "sharing a byte, Struct channels with sm3/sm2/coe offsets, ProcessDesc with size override, PacketDesc) x 1-2 generated Device "
         "subclasses whose program()/update() run 1-5 statements (var=var, bit=bit, bit=const, var=const, dv=var, var=dv, bit=var, "
         "var=bit, bit=dv) x random region contents (sign-bit/all-ones biased) and Ethernet header; non-trivial = the frame changes "
@@ -81,13 +91,14 @@ def resolve(case, v):
     raise KeyError("no such pdo")
 
 
-def layout(case):
+def layout(case, devs=None):
     """where every terminal's region lies in the EtherCAT frame (independent of allocate()): no-FMMU terminals get one
     FPRD and, if written, one FPWR datagram each, in position order; then one LRD and one LWR datagram hold the FMMU
     terminals' regions back to back.  Datagram = 10 header + data + 2 working counter; first datagram at 16."""
     res = [resolve(case, v) for v in case["vars"]]
-    used = sorted({v["t"] for v in case["vars"]}, key=lambda ti: case["terms"][ti]["position"])
-    rw = {ti: any(r[0] == OUT for r, v in zip(res, case["vars"]) if v["t"] == ti) for ti in used}
+    mine = [devs is None or v["dev"] in devs for v in case["vars"]]     # a group of only some of the devices
+    used = sorted({v["t"] for v, m in zip(case["vars"], mine) if m}, key=lambda ti: case["terms"][ti]["position"])
+    rw = {ti: any(r[0] == OUT for r, v, m in zip(res, case["vars"], mine) if m and v["t"] == ti) for ti in used}
     pos, regions, wkc, writers = 16, {}, [], []
     for ti in used:
         ts = case["terms"][ti]
@@ -119,7 +130,36 @@ def layout(case):
 
 
 def starts(lay, case):
-    return [lay["regions"][v["t"], r[0]] + r[1] for v, r in zip(case["vars"], lay["res"])]
+    return [lay["regions"][v["t"], r[0]] + r[1] if (v["t"], r[0]) in lay["regions"] else None
+            for v, r in zip(case["vars"], lay["res"])]
+
+
+def accessed(case):
+    """per variable: is it read (getter) / written (setter) by a statement"""
+    g, w = set(), set()
+    for o in case["ops"]:
+        if o["op"] == "get":
+            g.add(o["src"])
+        else:
+            w.add(o["dst"])
+            if o["src"][0] == "var":
+                g.add(o["src"][1])
+    return g, w
+
+
+def stale(case):
+    """known-finding class `stale-start`: some device ran before in a sync group that gave one of the variables it
+    accesses another start than the present group does"""
+    if not case.get("prior"):
+        return False
+    now, before = starts(layout(case), case), starts(layout(case, case["prior"]["devs"]), case)
+    g, w = accessed(case)
+    return any(v["dev"] in case["prior"]["devs"] and vi in g | w and before[vi] != now[vi] for vi, v in enumerate(case["vars"]))
+
+
+def shared(case):
+    """known-finding class `shared-packetvar`: one PacketVar object is linked to TerminalVars of two devices"""
+    return any(v.get("alias") is not None and case["vars"][v["alias"]]["dev"] != v["dev"] for v in case["vars"])
 
 
 def ordered_ops(case):
@@ -169,7 +209,9 @@ class Impl:
 
     def groups(self, case):
         key = canon({"t": case["terms"], "v": case["vars"], "d": [(d["dev"], d["fmt"]) for d in case["dvs"]], "o": case["ops"]})
-        if key != self.key:
+        if case.get("prior") or any(v.get("alias") is not None for v in case["vars"]):
+            key = None              # the history of the PacketVar objects matters: fresh objects for every case
+        if key is None or key != self.key:
             self.S = progs.procvar_group(case, fast=False)
             self.F = progs.procvar_group(case, fast=True)
             self.key = key
@@ -203,6 +245,8 @@ class Impl:
                 dev.update()
         except struct.error:
             return "struct-error", None
+        except AssertionError:
+            return "assertion-error", None
         except Exception as e:               # e.g. ValueError: byte must be in range(0, 256)
             return "other:" + type(e).__name__, None
         return bytes(sg.current_data), [int(S["devs"][d["dev"]].__dict__[f"dv{j}"]) for j, d in enumerate(case["dvs"])]
@@ -226,7 +270,7 @@ class Impl:
 
 
 def fmt_line(st, addrs, pyf, pyv, pyreads, fastf, fastv, fastreads):
-    j = lambda xs: "-" if xs is None else xs if isinstance(xs, str) else ",".join(str(int(x)) for x in xs)
+    j = lambda xs: "-" if xs is None or isinstance(xs, str) else ",".join(str(int(x)) for x in xs)
     return (f"starts={j(st)} addrs={j(addrs)} py={pyf if isinstance(pyf, str) else pyf.hex()} pyv={j(pyv)} reads={j(pyreads)} "
             f"prog={fastf.hex()} progv={j(fastv)} reads={j(fastreads)}")
 
@@ -252,7 +296,7 @@ def check_one(ctx, impl, case):
     except Exception as e:        # the working tree cannot build the groups / generate the program for this configuration
         impl.key = None
         ctx.require(False, "sync groups cannot be built / program cannot be generated", case, f"{type(e).__name__}: {e}", "build")
-        return "build-error", b"", True, False, sorted(opkind(case, lay, o) for o in case["ops"])
+        return "build-error", b"", None, True, False, sorted(opkind(case, lay, o) for o in case["ops"])
     # layout and offset resolution of the real objects against the independent one
     for G, nm in ((S, "slow"), (F, "fast")):
         real = {(ti, sm.value): off for ti, t in enumerate(G["terms"]) if t in G["sg"].pdo_assign
@@ -274,27 +318,35 @@ def check_one(ctx, impl, case):
     fastreads = read_all(F, case, fastout[14:])
     ref = reference(case, lay, pyframe)
     hdr = bytes.fromhex(case["hdr"])
+    if S["prior"] is not None:
+        pl = layout(case, case["prior"]["devs"])
+        psg = S["prior"]["sg"]
+        real = {(ti, sm.value): off for ti, t in enumerate(S["terms"]) if t in psg.pdo_assign for sm, off in psg.pdo_assign[t].items()}
+        ctx.require(real == pl["regions"], "earlier group: terminal regions differ from the frame layout", case, f"{real} vs {pl['regions']}", "layout")
+    known = "stale-start" if stale(case) else "shared-packetvar" if shared(case) else None
     if ref is not None:
         want, wvals, own = ref
         obs = f"python={pyout if isinstance(pyout, str) else pyout.hex()} program={fastout[14:].hex()} want={want.hex()} values py={pyvals} prog={fastvals} want={wvals}"
-        ctx.require(pyout == want, "Python path: frame after the statements is not 'only own bytes/bit written with the value'", case, obs, "py-frame")
-        ctx.require(pyvals == wvals, "Python path: value read is not the variable's own bytes/bit", case, obs, "py-value")
+        ctx.require(pyout == want, "Python path: frame after the statements is not 'only own bytes/bit written with the value'", case, obs, known or "py-frame")
+        ctx.require(pyvals == wvals, "Python path: value read is not the variable's own bytes/bit", case, obs, known or "py-value")
         ctx.require(r0 == 3 and errs == 1 and fastout[:14] == hdr, "program: not transmitted / working counter error / Ethernet header touched", case,
                     f"r0={r0} wkc_errors={errs} hdr={fastout[:14].hex()}", "prog-run")
         ctx.require(fastout[14:] == want, "program path: frame after the statements is not 'only own bytes/bit written with the value'", case, obs, "prog-frame")
         ctx.require(fastvals == wvals, "program path: value read is not the variable's own bytes/bit", case, obs, "prog-value")
-        ctx.require(pyout == fastout[14:] and pyvals == fastvals, "the two paths leave different frames / values", case, obs, "paths-differ")
+        ctx.require(pyout == fastout[14:] and pyvals == fastvals, "the two paths leave different frames / values", case, obs, known or "paths-differ")
         wreads = [(want[s] >> r[2]) & 1 if isinstance(r[2], int) else
                   int.from_bytes(want[s:s + width(r[2])], "little", signed=signed(r[2])) for s, r in zip(st, lay["res"])]
         ctx.require(pyreads == wreads and fastreads == wreads, "Python get of a variable on the final frame is not its own bytes/bit "
-                    "(slow group / fast group's received frame)", case, f"slow={pyreads} fast={fastreads} want={wreads}", "py-read")
+                    "(slow group / fast group's received frame)", case, f"slow={pyreads} fast={fastreads} want={wreads}", known or "py-read")
         if not isinstance(pyout, str):
             for nm, before, after in (("python", pyframe, pyout), ("program", pyframe, fastout[14:])):
                 stray = [k for k in range(len(before)) if (before[k] ^ after[k]) & ~own.get(k, 0) & 0xff]
-                ctx.require(not stray, f"{nm} path changed bytes/bits that belong to no written variable", case, f"offsets {stray}", "own-bytes")
+                ctx.require(not stray, f"{nm} path changed bytes/bits that belong to no written variable", case, f"offsets {stray}",
+                            (known if nm == "python" else None) or "own-bytes")
     changed = ref is not None and (ref[0] != pyframe or any(o["op"] == "get" for o in case["ops"]))
     kinds = sorted(opkind(case, lay, o) for o in case["ops"])
-    return fmt_line(real_st, [a for _, a in real_fa], pyout, pyvals, pyreads, fastout, fastvals, fastreads), pyframe, ref is not None, changed, kinds
+    return (fmt_line(real_st, [a for _, a in real_fa], pyout, pyvals, pyreads, fastout, fastvals, fastreads), pyframe, S["prior"],
+            ref is not None, changed, kinds)
 
 
 def opkind(case, lay, o):
@@ -473,7 +525,26 @@ def gen_case_config(rng):
             if x["dev"] in m:
                 x["dev"] = m[x["dev"]]
         vars_ = [v for v in vars_ if v["dev"] in m.values()]
-    return {"terms": terms, "vars": vars_, "dvs": dvs, "ops": ops}
+    cfg = {"terms": terms, "vars": vars_, "dvs": dvs, "ops": ops}
+    r = rng.random()
+    ndev = 1 + max(o["dev"] for o in ops)
+    if r < 0.15:            # the devices (or one of them) ran before in a sync group of their own
+        cfg["prior"] = {"devs": rng.choice([[0], [1], [1], [0, 1]]) if ndev == 2 else [0]}
+    elif r < 0.2:           # a second device is linked to the very PacketVar object a first one uses
+        g, w = accessed(cfg)
+        cand = [vi for vi, v in enumerate(vars_) if v["dev"] == 0 and vi in g | w]
+        if cand:
+            k = rng.choice(cand)
+            vars_.append({**vars_[k], "dev": 1, "alias": k})
+            size = resolve(cfg, vars_[k])[2]
+            if k in g and (k not in w or rng.random() < 0.5):
+                f = rng.choice(list(FMTS)) if isinstance(size, int) else rng.choice([x for x in FMTS if contained(size, x)])
+                dvs.append({"dev": 1, "fmt": f, "init": 0})
+                ops.append({"dev": 1, "op": "get", "dv": len(dvs) - 1, "src": len(vars_) - 1})
+            else:
+                c = rng.choice([0, 1]) if isinstance(size, int) else gen_const(rng, size)
+                ops.append({"dev": 1, "op": "set", "dst": len(vars_) - 1, "src": ["const", c]})
+    return cfg
 
 
 def gen_contents(rng, cfg):
@@ -494,17 +565,25 @@ def gen_contents(rng, cfg):
     return {**cfg, "dvs": dvs, "regions": regions, "hdr": bytes(rng.randrange(256) for _ in range(14)).hex()}
 
 
-def model_line(case, lay, pyframe):
+def model_line(case, lay, pyframe, prior):
     """what the Lean driver needs: the case plus what allocate() decided (taken from the independent layout, which the
     real groups were required to equal)"""
     vs = []
     for v in case["vars"]:
         s = struct_offsets(v["struct"])
         vs.append({"pdos": case["terms"][v["t"]]["pdos"], "struct": list(s), "desc": v["desc"],
-                   "assign_in": lay["regions"].get((v["t"], IN)), "assign_out": lay["regions"].get((v["t"], OUT))})
+                   "assign_in": lay["regions"].get((v["t"], IN)), "assign_out": lay["regions"].get((v["t"], OUT)),
+                   "obj": len(vs) if v.get("alias") is None else v["alias"], "dev": v["dev"]})
     ops = [{"op": o["op"], **({"dv": o["dv"], "src": o["src"]} if o["op"] == "get" else
                               {"dst": o["dst"], "kind": o["src"][0], "x": int(o["src"][1])})} for o in ordered_ops(case)]
-    return {"frame": pyframe.hex(), "hdr": case["hdr"], "vars": vs, "dvs": [[d["fmt"], d["init"]] for d in case["dvs"]], "ops": ops}
+    line = {"frame": pyframe.hex(), "hdr": case["hdr"], "vars": vs, "dvs": [[d["fmt"], d["init"]] for d in case["dvs"]], "ops": ops}
+    if prior is not None:            # the earlier group: its layout (independent), its frame, the statements of its devices
+        pl = layout(case, case["prior"]["devs"])
+        line["prior"] = {"assign": [[pl["regions"].get((v["t"], IN)), pl["regions"].get((v["t"], OUT))] if v["dev"] in case["prior"]["devs"]
+                                    else None for v in case["vars"]],
+                         "frame": prior["frame"].hex(),
+                         "ops": [m for m, o in zip(ops, ordered_ops(case)) if o["dev"] in case["prior"]["devs"]]}
+    return line
 
 
 def run(ctx):
@@ -517,8 +596,10 @@ def run(ctx):
             cfg = gen_case_config(ctx.rng)
         for _ in range(ctx.rng.choice([1, 2, 4])):
             case = gen_contents(ctx.rng, cfg)
-            out, pyframe, indomain, changed, kinds = check_one(ctx, impl, case)
+            out, pyframe, prior, indomain, changed, kinds = check_one(ctx, impl, case)
             ctx.case(case, nontrivial=changed, kind="representable" if indomain else "unrepresentable")
+            ctx.stats["history:" + ("stale-start" if stale(case) else "earlier-group-same-start" if case.get("prior") else
+                                    "shared-packetvar" if shared(case) else "fresh-objects")] += 1
             for k in kinds:                      # distribution: statement kinds, formats, layout features
                 a, b = k.split("=")
                 ctx.stats["stmt:" + a.split(":")[0] + "=" + b.split(":")[0]] += 1
@@ -530,7 +611,7 @@ def run(ctx):
             ctx.stats["devices:%d" % (1 + max(o["dev"] for o in case["ops"]))] += 1
             cases.append(case)
             outs.append(out)
-            lines.append(model_line(case, layout(case), pyframe))
+            lines.append(model_line(case, layout(case), pyframe, prior))
         if len(cases) >= 5000:               # the model side in batches, to bound memory in the thorough tier
             flush(ctx, cases, outs, lines)
     flush(ctx, cases, outs, lines)
@@ -546,8 +627,9 @@ def flush(ctx, cases, outs, lines):
 
 
 def replay(ctx, case):
-    out, pyframe, indomain, changed, kinds = check_one(ctx, Impl(), case)
-    return {"result": out, "representable": indomain, "statements": kinds}
+    out, pyframe, prior, indomain, changed, kinds = check_one(ctx, Impl(), case)
+    return {"result": out, "representable": indomain, "statements": kinds,
+            "history": "stale-start" if stale(case) else "shared-packetvar" if shared(case) else "none"}
 
 
 LEVEL_TEXT = ("Lean 4 proof over a hand-written model of both paths: for all frames, offsets, formats B H I Q b h i q and bit numbers 0..7 and all "
@@ -557,7 +639,11 @@ LEVEL_TEXT = ("Lean 4 proof over a hand-written model of both paths: for all fra
               "width), both sets and var-to-var copies leave the same frame, and values round-trip on each format's range; offsets resolve to "
               "pdo_assign + position (+ Struct offset) and + ETHERNET_HEADER (regenerated) for the program; run_agree: for every list of "
               "statements of a device (var/bit = var/bit/DeviceVar/constant, DeviceVar = var/bit) the program path leaves exactly the frame "
-              "and DeviceVar values of the Python path. Tie: three-way exact correspondence "
+              "and DeviceVar values of the Python path as _start of the present group defines it (run_agree) and of the real Python path with "
+              "its accessors cached on the PacketVar objects whenever no object is shared between devices and every cached accessor was "
+              "built under the present layout (run_agree_partial); the full statement (any history of the objects) is refuted on two "
+              "witnesses: a start cached in an earlier sync group makes `self.out = 1` write a foreign byte, a second device trips the "
+              "assertion (run_agree_full_refuted, ..._shared). Tie: three-way exact correspondence "
               "(real Python path, real bytecode re-assembled every run and interpreted, model) on random terminals / PDO maps / devices.")
 LEVEL_NOTE = ("trusted: Lean kernel + standard axioms; hand model validated by differential execution (not verified against the bytecode); "
               "interpreter semantics; unrepresentable values, bit numbers > 7, direct Struct links are outside the property")
